@@ -173,7 +173,30 @@ def extract():
     call_prop = re.search(r"svs_call\s*\(", pl) is not None and re.search(r"\)\s*\.\s*await\s*\?\s*;", pl) is not None
     tail_ok = re.search(r"Ok\s*\(\s*\(\s*\)\s*\)\s*$", pl.strip()) is not None
     async_loop_ok = len(oks) == 2 and bool(lm) and bool(gone) and bool(lastret) and call_prop and not tail_ok and \
-        not re.search(r"timeout|try_send|select!", pl)
+        not re.search(r"timeout|try_send|select!", pl) and len(re.findall(r"svs_call\s*\(", pl)) == 1
+    # no timer, deadline, sleep or retry arm anywhere in the pull paths (blocking reader, async loop and its
+    # driver, channel reader): a wait that gives up or asks again changes what a slow producer's stream means
+    TIMER = r"\btimeout\b|\bsleep\b|\bInstant\b|\bDuration\b|\binterval\b|\bretry|\bRETRY|\bdeadline|select!|recv_timeout|try_recv"
+    paths = [pl, fn_body(src, "run_pull")]
+    crm = re.search(r"impl\s*<\s*'a\s*>\s*ChunkReader\s*<\s*'a\s*>\s*\{", src)
+    if crm:
+        paths.append(src[crm.end():match_brace(src, crm.end() - 1)])
+    for hdr in (r"impl\s+Read\s+for\s+ChunkReader", r"impl\s+Read\s+for\s+ChannelReader"):
+        hm = re.search(hdr, src)
+        if hm:
+            k0 = src.find("{", hm.end())
+            paths.append(src[k0:match_brace(src, k0)])
+    no_timers = not any(re.search(TIMER, t) for t in paths)
+    # with_reader_stream drains the caller's source with std's `io::copy` (which propagates every error kind but
+    # the retried `Interrupted`); a hand-written loop is `false`
+    rs = re.search(r"fn\s+with_reader_stream\b[^{]*\{", src[re.search(r"impl\s+RouterValueStreamExt\s+for\s+Router", src).start():])
+    rsb = ""
+    if rs:
+        base0 = re.search(r"impl\s+RouterValueStreamExt\s+for\s+Router", src).start()
+        k0 = base0 + rs.end() - 1
+        rsb = src[k0:match_brace(src, k0)]
+    reader_copy = re.search(r"io\s*::\s*copy\s*\(\s*&mut\s+\w+\s*,\s*\w+\s*\)\s*\.\s*map\s*\(", rsb) is not None and \
+        not re.search(r"\bloop\b|\bwhile\b|\.\s*read\s*\(|copy_\w+\s*\(", rsb)
     # TeeWriter::write hands every byte to both sinks: two `write_all(buf)?`
     tw = re.search(r"impl\s*<[^>]*>\s*Write\s+for\s+TeeWriter", src)
     tee_all = False
@@ -197,7 +220,8 @@ def extract():
             "commitRemovesOnRenameError": removes_on_err, "writeFileCommitsOnlyOnOk": wf_commit_ok_only,
             "readerEofOnlyAfterLast": reader_ok, "tempCreateTruncates": create_truncates,
             "syncsParentDir": syncs_parent, "asyncLoopOkOnlyOnLastOrGone": bool(async_loop_ok),
-            "teeWritesAll": bool(tee_all)}
+            "teeWritesAll": bool(tee_all), "pullPathsHaveNoTimers": bool(no_timers),
+            "readerProducerUsesIoCopy": bool(reader_copy)}
 
 
 def render(f):
@@ -255,6 +279,14 @@ def asyncLoopOkOnlyOnLastOrGone : Bool := {b(f['asyncLoopOkOnlyOnLastOrGone'])}
 
 /-- `TeeWriter::write` hands the whole buffer to the file and to the digest (`write_all(buf)?` twice). -/
 def teeWritesAll : Bool := {b(f['teeWritesAll'])}
+
+/-- No timer, deadline, sleep or retry arm in the pull paths (`ChunkReader`, `pull_loop_async`, `run_pull`,
+`ChannelReader`): a slow producer's stream means what a fast one's does. -/
+def pullPathsHaveNoTimers : Bool := {b(f['pullPathsHaveNoTimers'])}
+
+/-- `with_reader_stream` drains the caller's source with `io::copy` (every error kind but the retried
+`Interrupted` ends the stream with `Fail`), not with a hand-written loop. -/
+def readerProducerUsesIoCopy : Bool := {b(f['readerProducerUsesIoCopy'])}
 
 end Repe.Gen.Commit
 """
